@@ -61,7 +61,7 @@ inline std::string& inflight_path()
 inline void inflight_signal_handler(int sig)
 {
     if (inflight_draw() && !inflight_path().empty())
-        inflight_draw()->save(inflight_path(), "in-flight case at signal " + std::to_string(sig));
+        inflight_draw()->save_raw(inflight_path().c_str(), sig);
     std::signal(sig, SIG_DFL);
     std::raise(sig);
 }
